@@ -5,10 +5,28 @@ from odata_query import ast, exceptions as ex
 from odata_query.grammar import ODataLexer, ODataParser
 from sexpr import enc, hexs
 
+class _Missing:
+    """stands for a field the exception object does not carry (the exception classes document their fields; a missing one must show up
+    as a difference, not crash the harness)"""
+    def __init__(self, name):
+        self.name = name
+    def __repr__(self):
+        return f"<no-attribute-{self.name}>"
+    __str__ = __repr__
+    def __bool__(self):
+        return False
+    def __getattr__(self, k):
+        return _Missing(self.name + "." + k)
+
+def _fld(e, name):
+    return getattr(e, name) if hasattr(e, name) else _Missing(name)
+
 def canon_exc(e, text=None, tokstarts=None):
     if isinstance(e, ex.TokenizingException):
-        return f"lib TokenizingException {e.token.index}"
+        return f"lib TokenizingException {_fld(e, 'token').index}"
     if isinstance(e, ex.ParsingException):
+        if not hasattr(e, "eof") or not hasattr(e, "token"):
+            return f"lib ParsingException {_fld(e, 'eof')} {_fld(e, 'token')}"
         if e.eof or e.token is None:
             return "lib ParsingException eof"
         idx = e.token.index
@@ -16,19 +34,19 @@ def canon_exc(e, text=None, tokstarts=None):
             idx = tokstarts.index(idx) if idx in tokstarts else f"?{idx}"
         return f"lib ParsingException {idx}"
     if isinstance(e, ex.UnknownFunctionException):
-        return f"lib UnknownFunctionException {hexs(e.function_name)}"
+        return f"lib UnknownFunctionException {hexs(str(_fld(e, 'function_name')))}"
     if isinstance(e, ex.ArgumentCountException):
-        return f"lib ArgumentCountException {hexs(e.function_name)} {e.exp_min_args} {e.exp_max_args} {e.n_args_given}"
+        return f"lib ArgumentCountException {hexs(str(_fld(e, 'function_name')))} {_fld(e, 'exp_min_args')} {_fld(e, 'exp_max_args')} {_fld(e, 'n_args_given')}"
     if isinstance(e, ex.UnsupportedFunctionException):
-        return f"lib UnsupportedFunctionException {hexs(e.function_name)}"
+        return f"lib UnsupportedFunctionException {hexs(str(_fld(e, 'function_name')))}"
     if isinstance(e, ex.ArgumentTypeException):
-        return f"lib ArgumentTypeException {hexs(e.function_name or '')}"
+        return f"lib ArgumentTypeException {hexs(str(_fld(e, 'function_name') or ''))}"
     if isinstance(e, ex.TypeException):
-        return f"lib TypeException {hexs(e.operation)}"
+        return f"lib TypeException {hexs(str(_fld(e, 'operation')))}"
     if isinstance(e, ex.ValueException):
         return "lib ValueException"
     if isinstance(e, ex.InvalidFieldException):
-        return f"lib InvalidFieldException {hexs(e.field_name)}"
+        return f"lib InvalidFieldException {hexs(str(_fld(e, 'field_name')))}"
     if isinstance(e, ex.ODataException):
         return f"lib {type(e).__name__}"
     if isinstance(e, NotImplementedError):
@@ -80,7 +98,7 @@ def real_lex(text):
         for t in ODataLexer().tokenize(text):
             out.append(tokname(t))
     except ex.TokenizingException as e:
-        return f"err {e.token.index} " + " ".join(out)
+        return f"err {_fld(e, 'token').index} " + " ".join(out)
     except Exception as e:  # noqa
         return f"foreign {type(e).__name__} " + " ".join(out)
     return "ok " + " ".join(out)
